@@ -288,6 +288,8 @@ def r7_reaper_cannot_die(ctx):
 
 
 def run(ctx):
+    from . import C20 as _C20t
+    _C20t.r12_subtractions(ctx, _C20t.input_reachable(ctx))   # no subtraction (sizes, Durations) that can underflow and kill the task that computes it
     from . import effects
     effects.check_property(ctx, "C12")    # R12.E: no operation on shared protocol state outside the reviewed table
     r7_reaper_cannot_die(ctx)
